@@ -507,10 +507,14 @@ MANIFEST = dict(
         "function's own guards (on branches no test takes, e.g. other_lens omitted), return-arity consistency, "
         "position-kind checking of the boundary shift, comparison normal forms of the containment/overlap "
         "predicates, enum/choices table agreement, and def-use pairing of each saved chunk with its own length. "
-        "Necessary conditions of C10; that the index arithmetic yields the documented windows is not decided."),
+        "For the 'ref' policy the function is specialised (option tests folded) for all 12 valuations of window type / "
+        "valid-only / other_lens given, and the returned bounds and keep-mask, extracted as min/max-linear terms over "
+        "(start, end, lobe, len, other_len), are compared with the documented rule at every point of a finite grid; a "
+        "boundary-vs-position rule requires an index range of T + 1 wherever a length is marked by equality. "
+        "Necessary conditions of C10; the 'fixed' and 'ali' window arithmetic is not decided."),
     level_note="Trusted: python ast; torch rank semantics of the closed transformer set in rules/rank.py. F11 (gather on "
-               "a rank-1 column) was found and repaired; F5 (boundaries shifted by "
+               "a rank-1 column) and F21 (the 'ali' policy raised whenever a sequence fills the time axis) were found and repaired; F5 (boundaries shifted by "
                "+ slice start) is a known finding because tests/test_feats.py encodes the same arithmetic.",
-    technique="static analysis: known-rank abstract interpretation, kind checking of positions, comparison normal forms, literal-table agreement",
+    technique="static analysis: known-rank abstract interpretation, kind checking of positions/boundaries, partial evaluation + min/max-linear term comparison with the documented rule, comparison normal forms, literal-table agreement",
     design_ref="DESIGN.md section 4 C10, section 3 G19/G14",
 )
